@@ -47,7 +47,7 @@ def snapshot(ttn):
 
 
 class Driver:
-    def __init__(self, ttn_cls=TreeTensorNetwork, nprs=None, ints=None, complex_=True, lowrank=0.0):
+    def __init__(self, ttn_cls=TreeTensorNetwork, nprs=None, ints=None, complex_=True, lowrank=0.0, share=False):
         self.ttn = ttn_cls()
         self.atoms = []          # atom index -> ndarray (raw value at creation)
         self.nprs = nprs or np.random.RandomState(0)
@@ -57,8 +57,17 @@ class Driver:
         self.log = []            # (op, ok)
         self.kernel_defects = []
         self.lowrank = lowrank
+        self.share = share            # nodes with equal tensor shapes receive the SAME ndarray object
+        self._shared = {}
 
     def _rand(self, shape):
+        if self.share:
+            key = tuple(shape)
+            if key not in self._shared:
+                sh, self.share = self.share, False
+                self._shared[key] = self._rand(shape)
+                self.share = sh
+            return self._shared[key]
         if self.lowrank and len(shape) >= 2 and self.nprs.rand() < self.lowrank:
             lr, self.lowrank = self.lowrank, 0.0
             vs = [self._rand((d,)) for d in shape]
